@@ -34,6 +34,42 @@ pub fn run(name: &str) -> Option<bool> {
             let r = b.write_bits_with_len(&[0u8], 100);
             r.is_err() && b.byte_len() != 0
         }
+        // read_octetstring treated a constrained length (ub < 64K) of 16K or more as the first fragment
+        "octet_constrained_16k" => {
+            use asn1rs::protocol::per::{PackedRead, PackedWrite};
+            let data = vec![0xABu8; 20000];
+            let mut b = BitBuffer::default();
+            b.write_octetstring(Some(0), Some(40000), false, &data).unwrap();
+            b.write_bits(&[0x55, 0x55]).unwrap();
+            let r = b.read_octetstring(Some(0), Some(40000), false);
+            !matches!(r, Ok(ref v) if *v == data)
+        }
+        // bit strings of 16K bits or more: fragments were not written / read correctly
+        "bitstring_16k" => {
+            use asn1rs::protocol::per::{PackedRead, PackedWrite};
+            let mut bad = false;
+            for bits in [16383u64, 16384, 20000, 32768, 65536, 70000, 81920, 200001] {
+                let data: Vec<u8> = (0..(bits + 7) / 8).map(|i| (i as u8).wrapping_mul(31) ^ 0x5A).collect();
+                let r = std::panic::catch_unwind(|| {
+                    let mut b = BitBuffer::default();
+                    b.write_bitstring(None, None, false, &data, 0, bits).unwrap();
+                    b.write_bits(&[0xA5]).unwrap();
+                    let (v, n) = b.read_bitstring(None, None, false).unwrap();
+                    let mut tail = [0u8; 1];
+                    b.read_bits(&mut tail).unwrap();
+                    let mut expect = data.clone();
+                    if bits % 8 != 0 {
+                        let last = expect.len() - 1;
+                        expect[last] &= 0xFFu8 << (8 - bits % 8);
+                    }
+                    n == bits && v == expect && tail == [0xA5]
+                });
+                if !matches!(r, Ok(true)) {
+                    bad = true;
+                }
+            }
+            bad
+        }
         _ => return None,
     })
 }
